@@ -81,6 +81,8 @@ impl OperationControl for Repeat {
         matcher: &'a ReMatcher,
         position: usize,
     ) -> Box<dyn Iterator<Item = usize> + 'a> {
+        #[cfg(regexml_verif)]
+        crate::verif::tick();
         let mut iterators: Vec<Box<dyn Iterator<Item = usize>>> = Vec::new();
         let mut positions = Vec::new();
         let bound = self.max.min(matcher.search.len() - position + 1);
@@ -100,6 +102,8 @@ impl OperationControl for Repeat {
                 positions.push(p);
             }
             for _i in 0..bound {
+                #[cfg(regexml_verif)]
+                crate::verif::tick();
                 let mut it = self.operation.matches_iter(matcher, p);
                 if let Some(next) = it.next() {
                     p = next;
@@ -195,17 +199,23 @@ impl Iterator for GreedyRepeatIterator<'_> {
     type Item = usize;
 
     fn next(&mut self) -> Option<Self::Item> {
+        #[cfg(regexml_verif)]
+        crate::verif::tick();
         let has_next = if self.primed && self.iterators.len() >= self.min {
             !self.iterators.is_empty()
         } else if self.iterators.is_empty() {
             false
         } else {
             loop {
+                #[cfg(regexml_verif)]
+                crate::verif::tick();
                 let top = self.iterators.last_mut().unwrap();
                 if let Some(mut p) = top.next() {
                     self.positions.pop();
                     self.positions.push(p);
                     while self.iterators.len() < self.bound {
+                        #[cfg(regexml_verif)]
+                        crate::verif::tick();
                         let mut it = self.operation.matches_iter(self.matcher, p);
                         if let Some(next) = it.next() {
                             p = next;
@@ -266,7 +276,11 @@ impl Iterator for ReluctantRepeatIterator<'_> {
     type Item = usize;
 
     fn next(&mut self) -> Option<Self::Item> {
+        #[cfg(regexml_verif)]
+        crate::verif::tick();
         loop {
+            #[cfg(regexml_verif)]
+            crate::verif::tick();
             if let Some(position) = self.position {
                 let mut it = self.operation.matches_iter(self.matcher, position);
                 if let Some(position) = it.next() {
